@@ -35,6 +35,7 @@ PROPERTY = {
         "which executes the model's own operations; only influence across models is flagged",
     ],
 }
+PROPERTY["rule"] += ' The first two models may be built from one pool of template objects; the sweep arm changes float precision between the two translations and has an int_spelling variant.'
 
 DT = 0.01
 
